@@ -283,6 +283,13 @@ def fstring_(*parts):
     return ''.join(out)
 
 
+def enter_(qualname):
+    """T7: records that the real function `qualname` runs on the current (symbolic) path"""
+    c = core.CTX
+    if c is not None:
+        c.funcs_entered.add(qualname)
+
+
 def loop_tick(loop_id):
     core.CTX.tick(loop_id, WHILE_BOUND)
 
